@@ -71,7 +71,7 @@ def dtypes_class(dtype, rdtype):
 def extra_of(cd):
     """family-level description of the input kind / data type relation of a call descriptor"""
     if cd.get('api') == 'resize_array':
-        return {'arraylike': cd.get('kind', 'ndarray'), 'dtypes': 'same'}
+        return {'arraylike': cd.get('kind', 'ndarray'), 'dtypes': 'out-wider' if cd.get('odtype') else 'same'}
     return {'arraylike': 'element', 'dtypes': dtypes_class(cd['dtype'], cd.get('rdtype'))}
 
 
@@ -595,6 +595,34 @@ def arraylike_cases(quick):
     return out
 
 
+def wider_out_cases(quick):
+    """resize_array with an `out` array that is WIDER than the input ("must ... be able to hold the data type of the input
+    array"): the result - in particular the SUMS of the adjoint direction - is a value of the out type.  The data are chosen
+    so that the exact result is representable in the out type but not in the input type (int8 sums beyond 127, float32
+    sums of 2^24 and 1), so an implementation that accumulates in the input type is seen."""
+    combos = [('int8', 'int64', [100, 90, 120, 101, 99, 110]), ('int8', 'float64', [100, 90, 120, 101, 99, 110]),
+              ('int16', 'int64', [30000, 30001, 29000, 31000, 30500, 29999]),
+              ('float32', 'float64', [2 ** 24, 1, 2 ** 24, 1, 1, 2 ** 24]), ('int32', 'complex128', [7, -3, 5, 2, 9, 4]),
+              ('float32', 'complex128', [2 ** 24, 1, 1, 2 ** 24, 1, 1])]
+    shapes = [([5], [3], [1]), ([6], [2], [2]), ([3], [5], [1]), ([3, 2], [2, 2], [1, 0]), ([2, 3], [2, 1], [0, 1])]
+    if quick:
+        shapes = shapes[:3] + shapes[4:]
+    out = []
+    k = 0
+    for dtype, odtype, vals in combos:
+        for dom, ran, offs in shapes:
+            for direction in ('adjoint', 'forward'):
+                for mode in MODES:
+                    k += 1
+                    if direction == 'forward' and k % 3:
+                        continue
+                    x = [cj(vals[(j + k) % len(vals)]) for j in range(size(dom))]
+                    out.append({'api': 'resize_array', 'variant': 'array', 'dom': dom, 'ran': ran, 'offs': offs, 'mode': mode,
+                                'dir': direction, 'c': cj(0), 'x': x, 'dtype': dtype, 'odtype': odtype, 'out': 'given',
+                                'order': ['C', 'F'][k % 2], 'D': 1, 'kind': 'ndarray', 'style': ['plain', 'alt'][k % 2]})
+    return out
+
+
 F32EDGE = Fraction(2 ** 24 + 1, 2 ** 24)       # 1 + 2^-24: a float64 that float32 rounds to 1
 
 
@@ -856,6 +884,8 @@ def run(ctx):
     dcalls = beyond_bounds(quick) + [driver_call(rnd) for _ in range(1000 if quick else 16000)]
     # 3d every kind of array-like input x direction x pad mode x growing / shrinking axes (deterministic)
     dcalls += arraylike_cases(quick)
+    # 3d' `out` wider than the input (sums of the adjoint direction live in the out type)
+    dcalls += wider_out_cases(quick)
     # 3e domain and range of different data types (fill in the RANGE data type, is_linear on the actual constant)
     mixed = mixed_dtype_cases(quick)
     dcalls += [cd for cd, _ in mixed if cd is not None]
